@@ -4,9 +4,11 @@ CONSTANTS
   Ticks = TRUE
   SkipFix = TRUE
   CctFix = TRUE
+  SelfFailFix = TRUE
   QMax = 100
   PPInterval = 2
   TestMode = TRUE
+  FaultKinds <- NoFaults
   MaxEternal = 2
 VIEW view
 INVARIANT TypeOK
